@@ -367,6 +367,10 @@ class Report:
                     return
         os.makedirs(REPLAY, exist_ok=True)
         idx = len(self.violations)
+        if idx >= 12:
+            # enough replay files for one run: further violations are only counted
+            self.cov['violations_not_recorded'] = self.cov.get('violations_not_recorded', 0) + 1
+            return
         path = os.path.join(REPLAY, f'{self.pid}_{self.tier}_{self.seed}_{idx}.json')
         with open(path, 'w') as f:
             json.dump({'property': self.pid, 'tier': self.tier, 'seed': self.seed, 'what': what,
